@@ -163,6 +163,7 @@ SuccessClause(c, S1) ==
     [] c.op = "Rechunk"   -> "ok"
     [] c.op = "Obstruct"  -> "ok"
     [] c.op = "Damage"    -> "ok"
+    [] c.op = "Restore"   -> "ok"
     [] c.op = "Stats"     -> "ok"
     [] c.op = "HandInfo"  -> Chk(sd.fullres = "ok", "oracle:SuccessButMissingFile")
     [] c.op \in {"Vol", "Slices"}
